@@ -126,7 +126,14 @@ def exec_sequence(bdir, prop, tier, seed, start, step, count, timeout=180, flavo
     m = re.search(r"^END %d (.*)$" % last, out, re.M)
     if m:
         r = json.loads(m.group(1))
-        return [v["sig"] for v in r.get("viol", [])], out[-2000:]
+        sigs = [v["sig"] for v in r.get("viol", [])]
+        if p.returncode != 0:
+            # every run of the sequence completed, the process then died while exiting (library destructor, sanitizer
+            # at-exit report): a violation of the whole history, named after where it died
+            cls, func = classify_crash(out, err, B.repo_root())
+            sigs.append("%s/EXIT/crash/at-exit/%s/%s" % (prop, cls, func))
+            return sigs, err[-3000:]
+        return sigs, out[-2000:]
     begins = re.findall(r"^BEGIN (\d+)$", out, re.M)
     if begins and int(begins[-1]) == last and p.returncode != 0:
         sig, _ = crash_signature(prop, out, err, B.repo_root())
